@@ -146,9 +146,18 @@ class Ref:
 
         q = darsia.quadrature
         if l1_mode_name == "RAVIART_THOMAS":
-            # numerical integration of the RT0 field: the library's rule is part of the
-            # discretisation (checked on its own by C15), so it is taken from the library
-            pts, w = q.gauss_reference_cell(self.dim, "max")
+            # numerical integration of the RT0 field by the tensor Gauss-Legendre rule on the unit
+            # cell.  Only the NUMBER of points per direction is read from the library (its "max"
+            # order is a design choice); nodes and weights come from numpy's Gauss-Legendre
+            # routine, so a wrong table entry in the library shows up as a wrong distance
+            import itertools
+
+            lib_pts, _ = q.gauss_reference_cell(self.dim, "max")
+            n = int(round(len(lib_pts) ** (1.0 / self.dim)))
+            x1, w1 = np.polynomial.legendre.leggauss(n)
+            x1, w1 = 0.5 * (x1 + 1.0), 0.5 * w1
+            pts = np.array(list(itertools.product(x1, repeat=self.dim)))
+            w = np.array([float(np.prod(c)) for c in itertools.product(w1, repeat=self.dim)])
         elif l1_mode_name == "CONSTANT_SUBCELL_PROJECTION":
             # documented as the projection onto constants on the 2^dim subcells = corner
             # rule with equal weights: part of the definition, written out independently
